@@ -93,8 +93,11 @@ def r1(run, db):
     errs = [site for site, s in cf.aggregates(adt="std::result::Result", variant="Err")]
     run.check(len(gts) == 1 and gts[0]["true_edge"] and any(cf.edge_dominates(gts[0]["true_edge"], e) for e in errs), "limit-test", "checked_frame_length: `length > max_frame_size` returns Err", "the `length > limit` rejection is gone or weakened (ops %s)" % [t["op"] for t in cmp_tests(cf)], cf.where())
     if gts:
-        first = all(cf.dominates(gts[0]["site"], c.site) for c in cf.calls() if not re.search(r"fmt|format|Arguments", c.name))
-        run.check(first, "limit-test-first", "the limit test precedes every conversion", None, cf.where())
+        # every operation that *uses the wire length* (a conversion, an allocation) comes after the limit test; pure computations
+        # on constants (e.g. the platform's maximum Vec length) may be hoisted
+        uses_len = lambda c: any(any(r["k"] == "arg" and r["local"] == 1 for r in cf.origins(a)) for a in c.args)
+        first = all(cf.dominates(gts[0]["site"], c.site) for c in cf.calls() if not re.search(r"fmt|format|Arguments", c.name) and uses_len(c))
+        run.check(first, "limit-test-first", "the limit test precedes every conversion of the wire length", None, cf.where())
         okret = all(cf.edge_dominates(gts[0]["false_edge"], s) for s, st in cf.aggregates(adt="std::result::Result", variant="Ok")) if cf.aggregates(adt="std::result::Result", variant="Ok") else True
         ret = cf.origins([0, []])
         run.check(okret and gts[0]["false_edge"] is not None, "ok-only-under-limit", "Ok is produced only on the `length <= limit` edge", None, cf.where())
@@ -140,7 +143,9 @@ def r2(run, db):
     zt = [t for t in cmp_tests(f) if t["op"] == "Eq" and t["b"] == ("c", 0)]
     errs = [site for site, s in f.aggregates(adt="std::result::Result", variant="Err")]
     run.check(any(t["true_edge"] and any(f.edge_dominates(t["true_edge"], e) for e in errs) for t in zt), "zero-read-is-eof", "a read of 0 bytes returns an error (no spin on a closed stream)", "a zero-length read no longer terminates the loop", f.where())
-    lt = [t for t in cmp_tests(f) if t["op"] == "Lt" and f.in_cycle(t["site"])]
+    # `while buf.len() < len` / `loop { if buf.len() >= len { break } .. }` and their mirrored spellings
+    is_len = lambda x: x[0] == "call" and x[1].name.endswith("::len")
+    lt = [t for t in cmp_tests(f) if t["op"] in ("Lt", "Ge", "Gt", "Le") and f.in_cycle(t["site"]) and ((is_len(t["a"]) and not is_len(t["b"]) and t["b"][0] != "c") or (is_len(t["b"]) and not is_len(t["a"]) and t["a"][0] != "c"))]
     run.check(len(lt) >= 1, "loop-until-len", "the loop runs while buf.len() < len", None, f.where())
 
 
